@@ -35,16 +35,7 @@ def tailOffset (window num den : Nat) (cigar : List CigarOp) (seq : List Char)
       let start := max 0 (mappedEnd - fromPos)
       let stop := min n (mappedEnd + toPos + 1)
       let region := (slice seq start stop).map (fun c => upperChar c == 'A')
-      let minCount := window * num / den
-      let pos0 := findPolya window minCount region
-      let pos1 := match pos0 with
-        | none => none
-        | some p =>
-          if checkEntire then
-            let tail := region.drop p
-            if countTrue tail * den < tail.length * num then none else some p
-          else some p
-      match pos1 with
+      match tailScan window num den checkEntire region with
       | none => some none
       | some p =>
         let pos : Int := start + p
@@ -67,16 +58,7 @@ def headOffset (window num den : Nat) (cigar : List CigarOp) (seq : List Char)
       let start := max 0 (mappedStart - toPos)
       let stop := min n (mappedStart + fromPos + 1)
       let region := ((slice seq start stop).reverse).map (fun c => upperChar c == 'T')
-      let minCount := window * num / den
-      let pos0 := findPolya window minCount region
-      let pos1 := match pos0 with
-        | none => none
-        | some p =>
-          if checkEntire then
-            let tail := region.drop p
-            if countTrue tail * den < tail.length * num then none else some p
-          else some p
-      match pos1 with
+      match tailScan window num den checkEntire region with
       | none => some none
       | some p =>
         let pos : Int := stop - p - 1
@@ -95,36 +77,16 @@ theorem findPolyaTail_eq_offset (w n d : Nat) (s : Int) (cigar : List CigarOp) (
   · simp [h1, h2, renderTail]
   by_cases h3 : softClipTail cigar < (seq.length : Int)
   · simp only [h1, h2, h3, if_false, not_true_eq_false]
-    generalize findPolya w (w * n / d) _ = fp
-    have fin : ∀ p : Nat,
-        (if max 0 ((seq.length : Int) - softClipTail cigar - f) + (p : Int) ≥ (seq.length : Int) - softClipTail cigar then
-            some (s + referenceEnd 0 cigar +
-              (max 0 ((seq.length : Int) - softClipTail cigar - f) + (p : Int) - ((seq.length : Int) - softClipTail cigar)))
-          else (moveRefCoord cigar (max 0 ((seq.length : Int) - softClipTail cigar - f) + (p : Int) -
-              ((seq.length : Int) - softClipTail cigar))).bind (fun r => some (s + referenceEnd 0 cigar - r))) =
-        Option.map (renderTail s)
-          (if max 0 ((seq.length : Int) - softClipTail cigar - f) + (p : Int) ≥ (seq.length : Int) - softClipTail cigar then
-            some (some (referenceEnd 0 cigar +
-              (max 0 ((seq.length : Int) - softClipTail cigar - f) + (p : Int) - ((seq.length : Int) - softClipTail cigar))))
-          else (moveRefCoord cigar (max 0 ((seq.length : Int) - softClipTail cigar - f) + (p : Int) -
-              ((seq.length : Int) - softClipTail cigar))).bind (fun r => some (some (referenceEnd 0 cigar - r)))) := by
-      intro p
+    generalize tailScan w n d c _ = fp
+    cases fp with
+    | none => rfl
+    | some p =>
+      simp only []
       split
       · simp only [Option.map_some, renderTail]; congr 1; omega
       · cases moveRefCoord cigar _ with
         | none => rfl
-        | some r => simp only [Option.bind_some, Option.map_some, renderTail]; congr 1; omega
-    cases fp with
-    | none => rfl
-    | some p =>
-      cases c with
-      | false => exact fin p
-      | true =>
-        simp only [if_true]
-        generalize (if countTrue _ * d < _ then (none : Option Nat) else some p) = q
-        cases q with
-        | none => rfl
-        | some q => exact fin q
+        | some r => simp only [Option.bind_eq_bind, Option.bind_some, Option.map_some, renderTail]; congr 1; omega
   · simp [h1, h2, h3]
 
 theorem findPolytHead_eq_offset (w n d : Nat) (s : Int) (cigar : List CigarOp) (seq : List Char) (f t : Int) (c : Bool) :
@@ -136,34 +98,16 @@ theorem findPolytHead_eq_offset (w n d : Nat) (s : Int) (cigar : List CigarOp) (
   · simp [h1, h2, renderHead]
   by_cases h3 : softClipHead cigar < (seq.length : Int)
   · simp only [h1, h2, h3, if_false, not_true_eq_false]
-    generalize findPolya w (w * n / d) _ = fp
-    have fin : ∀ p : Nat,
-        (if min (seq.length : Int) (softClipHead cigar + f + 1) - (p : Int) - 1 ≤ softClipHead cigar then
-            some (max 1 (s - (softClipHead cigar - (min (seq.length : Int) (softClipHead cigar + f + 1) - (p : Int) - 1))))
-          else (moveRefCoord cigar (min (seq.length : Int) (softClipHead cigar + f + 1) - (p : Int) - 1 - softClipHead cigar)).bind
-            (fun r => some (max 1 (s + r)))) =
-        Option.map (renderHead s)
-          (if min (seq.length : Int) (softClipHead cigar + f + 1) - (p : Int) - 1 ≤ softClipHead cigar then
-            some (some (-(softClipHead cigar - (min (seq.length : Int) (softClipHead cigar + f + 1) - (p : Int) - 1))))
-          else (moveRefCoord cigar (min (seq.length : Int) (softClipHead cigar + f + 1) - (p : Int) - 1 - softClipHead cigar)).bind
-            (fun r => some (some r))) := by
-      intro p
+    generalize tailScan w n d c _ = fp
+    cases fp with
+    | none => rfl
+    | some p =>
+      simp only []
       split
       · simp only [Option.map_some, renderHead]; congr 2
       · cases moveRefCoord cigar _ with
         | none => rfl
-        | some r => simp only [Option.bind_some, Option.map_some, renderHead]
-    cases fp with
-    | none => rfl
-    | some p =>
-      cases c with
-      | false => exact fin p
-      | true =>
-        simp only [if_true]
-        generalize (if countTrue _ * d < _ then (none : Option Nat) else some p) = q
-        cases q with
-        | none => rfl
-        | some q => exact fin q
+        | some r => simp only [Option.bind_eq_bind, Option.bind_some, Option.map_some, renderHead]
   · simp [h1, h2, h3]
 
 /-! ## clean tails: 15 A's right behind the aligned part (whatever follows), three non-A bases before them -/
@@ -175,6 +119,12 @@ theorem findPolya_clean2 (rest : List Bool) : findPolya 16 12 (false :: false ::
 
 theorem findPolya_clean3 (rest : List Bool) : findPolya 16 12 (false :: false :: false :: (t15 ++ rest)) = some 3 := by
   simp [findPolya, t15, findPolyaLoop, countTrue, findAA]
+
+/-- without the entire-tail test the scan is the window scan with `min_count = 16 * 3 / 4 = 12` -/
+theorem tailScan_false_16 (region : List Bool) : tailScan 16 3 4 false region = findPolya 16 12 region := by
+  have h12 : 16 * 3 / 4 = 12 := by decide
+  simp only [tailScan, h12]
+  cases findPolya 16 12 region <;> simp
 
 def a15 : List Char := ['A','A','A','A','A','A','A','A','A','A','A','A','A','A','A']
 
@@ -207,8 +157,7 @@ theorem clean_tail (pre : List Char) (c1 c2 : Char) (rest : List Char) (s : Int)
       false :: false :: (t15 ++ List.map (fun c => upperChar c == 'A') (List.take (min rest.length 18) rest)) := by
     have ha : List.map (fun c => upperChar c == 'A') a15 = t15 := by decide
     simp only [List.map_cons, List.map_append, h1, h2, ha]
-  have h12 : 16 * 3 / 4 = 12 := by decide
-  rw [hslice, hmap, h12, findPolya_clean2]
+  rw [hslice, hmap, tailScan_false_16, findPolya_clean2]
   simp
   omega
 
@@ -241,8 +190,7 @@ theorem clean_head (rest : List Char) (d1 d2 d3 : Char) (post : List Char) (s : 
     have ha : List.map (fun c => upperChar c == 'T') tt15.reverse = t15 := by decide
     simp only [List.reverse_append, List.map_append, List.reverse_cons, List.reverse_nil, List.nil_append,
       List.cons_append, List.map_cons, List.map_nil, h1, h2, h3, ha, List.append_assoc]
-  have h12 : 16 * 3 / 4 = 12 := by decide
-  rw [hslice, hmap, h12, findPolya_clean3]
+  rw [hslice, hmap, tailScan_false_16, findPolya_clean3]
   simp
   refine ⟨by omega, ?_⟩
   have c : (rest.length : Int) + 18 - 3 - 1 ≤ (rest.length : Int) + 15 := by omega
